@@ -10,8 +10,13 @@ import DigModel.Dot
     entries of earlier constructors in place (one cluster per accepted constructor, in registration order);
   * `C19_missing_is_root`: the first failure recorded (the innermost of the chain) is the root cause; later ones
     are transitive: `failNode` appends to `rootCauses` iff none was recorded before.
-  The emitted text (syntax, labels) and the whole structure including pruning are compared with the real
-  Visualize output on every explored program by the K-dot correspondence.
+  * `C19_one_cluster_per_constructor`: the picture of a container (no error given) has exactly one cluster per entry
+    of the scopes' `nodes` lists — the accepted constructors, root first, then each child scope, in registration
+    order — and the cluster of constructor `n` carries `n`'s ID, one parameter entry per declared *single*
+    dependency (type, name, optional flag preserved: a dashed edge iff optional) and one result node per declared
+    result (parameter/result objects flattened, As expanded), every cluster alive and uncoloured.
+  The emitted text (syntax, labels), value-group nodes and the whole structure including pruning are compared with
+  the real Visualize output on every explored program by the K-dot correspondence.
 -/
 namespace Dig.C19
 
@@ -78,6 +83,116 @@ theorem C19_addCtor_appends (env : TyEnv) (g : DGraph) (id : Nat) (ps : List (Na
       refine ⟨{ id := id, params := params, gparams := gparams, results := results }, ?_, rfl, rfl, rfl⟩
       rw [hr]; simp only; rw [h2, h1]
 
+
+/-! ### one cluster per accepted constructor -/
+
+/-- the single (non-group) parameters of a flattened parameter list -/
+def singleParams : List (Nat × String × String × Bool) → List DParam
+  | [] => []
+  | (ty, name, group, opt) :: rest =>
+    if group == "" then { ty := ty, name := name, group := group, optional := opt } :: singleParams rest
+    else singleParams rest
+
+/-- what a cluster shows of its constructor -/
+def ctorView (c : DCtor) : Nat × List DParam × List (Nat × String × String) × Bool × ErrT :=
+  (c.id, c.params, c.results.map (fun r => (r.ty, r.name, r.group)), c.alive, c.err)
+
+private theorem addParams_params (env : TyEnv) : ∀ (ps : List (Nat × String × String × Bool)) (g : DGraph),
+    (DGraph.addParams env g ps).2.1 = singleParams ps := by
+  intro ps
+  induction ps with
+  | nil => intro g; rfl
+  | cons p rest ih =>
+    intro g
+    obtain ⟨ty, name, group, opt⟩ := p
+    simp only [DGraph.addParams, singleParams]
+    split
+    · rw [← ih g]
+    · rw [ih]
+
+private theorem addResults_results : ∀ (rs : List (Nat × String × String)) (g : DGraph),
+    (DGraph.addResults g rs).2.map (fun r => (r.ty, r.name, r.group)) = rs := by
+  intro rs
+  induction rs with
+  | nil => intro g; rfl
+  | cons r rest ih =>
+    intro g
+    obtain ⟨ty, name, group⟩ := r
+    simp only [DGraph.addResults]
+    split
+    · simp only [List.map_cons]; rw [ih g]
+    · simp only [List.map_cons]; rw [ih]
+
+theorem addCtor_view (env : TyEnv) (g : DGraph) (id : Nat) (ps : List (Nat × String × String × Bool))
+    (rs : List (Nat × String × String)) :
+    (g.addCtor env id ps rs).ctors.map ctorView = g.ctors.map ctorView ++ [(id, singleParams ps, rs, true, ErrT.none)] := by
+  unfold DGraph.addCtor
+  have h1 := addParams_ctors env ps g
+  have p1 := addParams_params env ps g
+  cases hp : DGraph.addParams env g ps with
+  | mk g1 r1 =>
+    obtain ⟨params, gparams⟩ := r1
+    rw [hp] at h1 p1
+    have h2 := addResults_ctors rs g1
+    have p2 := addResults_results rs g1
+    cases hr : DGraph.addResults g1 rs with
+    | mk g2 results =>
+      rw [hr] at h2 p2
+      simp only at h1 h2 p1 p2 ⊢
+      rw [hr]
+      simp only
+      rw [h2, h1, List.map_append]
+      simp [ctorView, p1, p2]
+
+/-- the constructors `Visualize` walks over: the scope's accepted constructors, then its children's -/
+def preorderNodes (st : St) : Nat → Nat → List Nat
+  | 0, _ => []
+  | fuel + 1, s => (st.scope s).nodes ++ (st.scope s).children.flatMap (preorderNodes st fuel)
+
+def clusterOf (ids : Bool) (st : St) (n : Nat) : Nat × List DParam × List (Nat × String × String) × Bool × ErrT :=
+  (ctorId ids (st.ctor n).fn, singleParams (dotParams (st.ctor n).params), dotSlots (st.ctor n).results, true, ErrT.none)
+
+private theorem fold_addCtor_view (env : TyEnv) (ids : Bool) (st : St) : ∀ (ns : List Nat) (g : DGraph),
+    (ns.foldl (fun g n => g.addCtor env (ctorId ids (st.ctor n).fn) (dotParams (st.ctor n).params) (dotSlots (st.ctor n).results)) g).ctors.map ctorView =
+      g.ctors.map ctorView ++ ns.map (clusterOf ids st) := by
+  intro ns
+  induction ns with
+  | nil => intro g; simp
+  | cons n rest ih =>
+    intro g
+    simp only [List.foldl_cons, List.map_cons]
+    rw [ih, addCtor_view]
+    simp [clusterOf, List.append_assoc]
+
+theorem addNodesAux_view (env : TyEnv) (ids : Bool) (st : St) : ∀ (fuel s : Nat) (g : DGraph),
+    (addNodesAux env ids st fuel s g).ctors.map ctorView = g.ctors.map ctorView ++ (preorderNodes st fuel s).map (clusterOf ids st) := by
+  intro fuel
+  induction fuel with
+  | zero => intro s g; simp [addNodesAux, preorderNodes]
+  | succ fuel ih =>
+    intro s g
+    simp only [addNodesAux, preorderNodes]
+    have hkids : ∀ (cs : List Nat) (g : DGraph),
+        (cs.foldl (fun g c => addNodesAux env ids st fuel c g) g).ctors.map ctorView =
+          g.ctors.map ctorView ++ (cs.flatMap (preorderNodes st fuel)).map (clusterOf ids st) := by
+      intro cs
+      induction cs with
+      | nil => intro g; simp
+      | cons c rest ihc =>
+        intro g
+        simp only [List.foldl_cons, List.flatMap_cons, List.map_append]
+        rw [ihc, ih]
+        simp [List.append_assoc]
+    rw [hkids, fold_addCtor_view]
+    simp [List.append_assoc]
+
+theorem C19_one_cluster_per_constructor (env : TyEnv) (ids : Bool) (st : St) :
+    (visualize env ids st none).ctors.map ctorView = (preorderNodes st st.scopes.length 0).map (clusterOf ids st) := by
+  show (createGraph env ids st).ctors.map ctorView = _
+  unfold createGraph
+  rw [addNodesAux_view]
+  simp
+
 theorem C19_first_failure_is_root (g : DGraph) (r : DResult) :
     (g.failNode r g.rootCauses.isEmpty).rootCauses = (if g.rootCauses.isEmpty then g.rootCauses ++ [r] else g.rootCauses) ∧
     (g.failNode r g.rootCauses.isEmpty).transitive = (if g.rootCauses.isEmpty then g.transitive else g.transitive ++ [r]) := by
@@ -85,6 +200,9 @@ theorem C19_first_failure_is_root (g : DGraph) (r : DResult) :
   cases g.rootCauses.isEmpty <;> simp
 
 #print axioms C19_can
+#print axioms addCtor_view
+#print axioms addNodesAux_view
+#print axioms C19_one_cluster_per_constructor
 #print axioms C19_no_error_is_createGraph
 #print axioms C19_uninformative_error
 #print axioms C19_addCtor_appends
